@@ -465,13 +465,27 @@ impl M {
                 };
                 let r = self.with_rng(c, &mut draws, |m, rng| {
                     let ksf = m.ksf_ref(c)?;
-                    let params = ClientRegistrationFinishParameters::new(
-                        Identifiers {
-                            client: id_u.as_deref(),
-                            server: id_s.as_deref(),
-                        },
-                        ksf,
-                    );
+                    let ids = Identifiers {
+                        client: id_u.as_deref(),
+                        server: id_s.as_deref(),
+                    };
+                    // the ways a caller can build the parameter struct
+                    let params = match c["params_via"].as_str().unwrap_or("new") {
+                        "literal" => ClientRegistrationFinishParameters { identifiers: ids, ksf },
+                        "default" => {
+                            let mut p_ = ClientRegistrationFinishParameters::<Cs>::default();
+                            p_.identifiers = ids;
+                            p_.ksf = ksf;
+                            p_
+                        }
+                        "clone" => {
+                            let p_ = ClientRegistrationFinishParameters::new(ids, ksf);
+                            let q_ = p_.clone();
+                            drop(p_);
+                            q_
+                        }
+                        _ => ClientRegistrationFinishParameters::new(ids, ksf),
+                    };
                     Ok(api(state.finish(rng, &pw, resp, params)))
                 })?;
                 match r {
@@ -539,11 +553,29 @@ impl M {
                 // cloning an ExtKey-backed setup is not an interface operation: discard nothing,
                 // clone() is not logged.
                 let r = self.with_rng(c, &mut draws, |_, rng| {
-                    let params = ServerLoginStartParameters {
-                        context: ctx.as_deref(),
-                        identifiers: Identifiers {
-                            client: id_u.as_deref(),
-                            server: id_s.as_deref(),
+                    let ids = Identifiers {
+                        client: id_u.as_deref(),
+                        server: id_s.as_deref(),
+                    };
+                    let params = match c["params_via"].as_str().unwrap_or("literal") {
+                        "default" => {
+                            let mut p_ = ServerLoginStartParameters::default();
+                            p_.context = ctx.as_deref();
+                            p_.identifiers = ids;
+                            p_
+                        }
+                        "clone" => {
+                            let p_ = ServerLoginStartParameters {
+                                context: ctx.as_deref(),
+                                identifiers: ids,
+                            };
+                            let q_ = p_.clone();
+                            drop(p_);
+                            q_
+                        }
+                        _ => ServerLoginStartParameters {
+                            context: ctx.as_deref(),
+                            identifiers: ids,
                         },
                     };
                     Ok(match &setup {
@@ -575,14 +607,31 @@ impl M {
                     _ => return Err("resp: not a credential response".into()),
                 };
                 let ksf = self.ksf_ref(c)?;
-                let params = ClientLoginFinishParameters::new(
-                    ctx.as_deref(),
-                    Identifiers {
-                        client: id_u.as_deref(),
-                        server: id_s.as_deref(),
+                let ids = Identifiers {
+                    client: id_u.as_deref(),
+                    server: id_s.as_deref(),
+                };
+                let params = match c["params_via"].as_str().unwrap_or("new") {
+                    "literal" => ClientLoginFinishParameters {
+                        context: ctx.as_deref(),
+                        identifiers: ids,
+                        ksf,
                     },
-                    ksf,
-                );
+                    "default" => {
+                        let mut p_ = ClientLoginFinishParameters::<Cs>::default();
+                        p_.context = ctx.as_deref();
+                        p_.identifiers = ids;
+                        p_.ksf = ksf;
+                        p_
+                    }
+                    "clone" => {
+                        let p_ = ClientLoginFinishParameters::new(ctx.as_deref(), ids, ksf);
+                        let q_ = p_.clone();
+                        drop(p_);
+                        q_
+                    }
+                    _ => ClientLoginFinishParameters::new(ctx.as_deref(), ids, ksf),
+                };
                 match api(state.finish(&pw, resp, params)) {
                     Err(e) => errv(e),
                     Ok(res) => {
